@@ -80,7 +80,38 @@ class DecisionOp(Op):
         return cases
 
 
-NAMES = ["trees", "a.b", "__x", "_x", "a-b", "1a", "", "a b", "é", "na:me", "name", "Name", "LABEL", "label", "labelx", "__", "x__y", "a..", "q]", "µ", "Àb", "a:b:c", "x.y"]
+NAMES = ["trees", "trees\n", "a\nb", "a.b", "__x", "_x", "a-b", "1a", "", "a b", "é", "na:me", "name", "Name", "LABEL", "label", "labelx", "__", "x__y", "a..", "q]", "µ", "Àb", "a:b:c", "x.y"]
+
+
+class DatasetCellOp(Op):
+    """the dataset cell of the entities row, absent and empty included (get_validated_dataset_name on the row)"""
+    name = "B.dataset_cell"
+    imports = ["PX.Model.Entities"]
+    fn = "fun c => match dataset_cell_check c with Some n => dec (N.of_nat n) | None => [111;107]%N end"
+    in_ty = "option (list N)"
+    n_quick, n_thorough = 61, 400
+
+    def generate(self, rng, n):
+        from pyxform.entities.entities_parsing import get_validated_dataset_name
+        from pyxform.errors import PyXFormError
+        from props.c01 import NAME_ALPHA
+        cases = []
+        for i in range(n):
+            if i == 0:
+                row, coq, s = {"label": "x"}, "None", None
+            else:
+                s = "" if i == 1 else (NAMES[i - 2] if i - 2 < len(NAMES) else "".join(rng.choice(NAME_ALPHA + ["_", "_", ".", "a"]) for _ in range(rng.randint(0, 4))))
+                row, coq = {"dataset": s, "label": "x"}, f"(Some {cstr(s)})"
+            try:
+                get_validated_dataset_name(row)
+                exp = "ok"
+            except PyXFormError as ex:
+                m = str(ex)
+                exp = "0" if "missing the list_name" in m else ("1" if "reserved prefix" in m else ("2" if "periods" in m else "3"))
+            except Exception as ex:   # a crash is an outcome the model does not have
+                exp = "crash:" + type(ex).__name__
+            cases.append({"coq": coq, "expected": exp, "desc": {"dataset": s}, "class": "cell=" + exp, "nontrivial": exp in ("0", "ok")})
+        return cases
 
 
 class NamesOp(Op):
@@ -100,7 +131,7 @@ class NamesOp(Op):
             s = rng.choice(NAMES) if i < len(NAMES) * 2 else "".join(rng.choice(NAME_ALPHA + ["_", "_", ".", "n", "a", "m", "e"]) for _ in range(rng.randint(1, 5)))
             if i < len(NAMES):
                 s = NAMES[i]
-            if not s or "\n" in s:
+            if not s:
                 continue
             try:
                 get_validated_dataset_name({"dataset": s})
@@ -119,7 +150,7 @@ class NamesOp(Op):
 
 
 def ops(tier):
-    return [DecisionOp(), NamesOp()]
+    return [DecisionOp(), NamesOp(), DatasetCellOp()]
 
 
 # ---- direct oracle ---------------------------------------------------------------------------------
